@@ -118,6 +118,38 @@ def late_cases(rng, n):
     return cs
 
 
+SHARED_TYPES = [
+    ({'@base': '{\n  "inherited": "x" // {or: [{type: "string", minLength: 1}, {type: "integer"}]}\n}',
+      '@heir': '{ // {allOf: "@base"}\n  "own": 1 // {type: "@num"}\n}',
+      '@num': '5 // {min: 1}', '@rx': '/[a-z]{1,4}\\d?/', '@ch': '@num | @rx',
+      '@list': '[\n  @heir\n]', '@keyed': '{\n  @rx: 1,\n  "e": "x" // {enum: @e}\n}',
+      '@ap': '{ // {additionalProperties: "@num"}\n}'}, {'@e': '["x", "y"]'},
+     ['@heir', '{\n  "k": @heir,\n  "l": @list\n}', '@ch', '[\n  @keyed,\n  @ap\n]', '{ // {allOf: ["@heir", "@ap"]}\n  "z": @rx\n}',
+      '{\n  "a": "b1" // {type: "@rx"}\n}', '1 // {or: ["@num", {type: "@rx"}]}', '{\n  "q": @missing\n}', '{\n  "k": @heir,', '@base']),
+    ({'@a': '{\n  "x": @b, // {optional: true}\n  "n": 1\n}', '@b': '{\n  "y": @a, // {optional: true}\n  "m": [1, 2]\n}',
+      '@bad': '{\n  "v": 1 // {min: 2}\n}'}, {},
+     ['@a', '{\n  "r": @b\n}', '[\n  @a,\n  @b\n]', '@bad', '{\n  "ok": 1,\n  "bad": @bad\n}', '@a | @b']),
+]
+
+
+def shared_cases(rng, n):
+    """several schemas of one project that are given the SAME type and rule objects (one object per type, as a tool does that
+    keeps its user types in a table): every answer must be the one the schema gives with objects of its own"""
+    cs = []
+    for _ in range(n):
+        types, rules, roots = rng.choice(SHARED_TYPES)
+        k = rng.randint(2, 4)
+        flag = rng.choice([' share', ' all share'])
+        objs = [spec(rng.choice(roots), types, rules) + flag for _ in range(k)]
+        ops = ['%s%d' % (rng.choice('cleauo'), rng.randrange(k)) for _ in range(rng.randint(3, 12))]
+        cs.append(Case('hist ' + ' ; '.join(objs) + ' ;; ' + ' '.join(ops), 'shared-type-objects', meta=(objs, ops)))
+    return cs
+
+
+def unshared(sp):
+    return sp[:-len(' share')] if sp.endswith(' share') else sp
+
+
 class Prop:
     id = 'C10'
     level = 'proof'
@@ -162,6 +194,7 @@ class Prop:
                 for ops in ['e0 e1 o1 e1', 'o0 o1 e1 o1', 'e0 o0 e1 o1 a1 c1', 'e1 e0 e1 o0 o1']:
                     cs.append(Case('hist %s ; %s ;; %s' % (b, small, ops), 'history-after-a-large-result', meta=([b, small], ops.split())))
         cs += late_cases(rng, 300 if tier == 'quick' else 3000)
+        cs += shared_cases(rng, 250 if tier == 'quick' else 2500)
         return cs
 
     def asked(self, objs, ops):
@@ -174,7 +207,7 @@ class Prop:
                 bare.add(k)
             elif o[0] in 'tn':
                 bare.discard(k)
-            out.append((o, strip_types(objs[k]) if k in bare else objs[k]))
+            out.append((o, unshared(strip_types(objs[k]) if k in bare else objs[k])))
         return out
 
     def run_impl(self, lines):
